@@ -287,6 +287,19 @@ func (w *world) runCb(c *PCb) error {
 		return w.errAt(c.E)
 	case "panicErr":
 		panic(w.errs[*c.E]) // nil error => panic(nil)
+	case "panicInner":
+		// the PanicError an earlier Recover put beneath its result, used as a panic value itself
+		x := w.errs[*c.E]
+		if ue, ok := x.(errdef.Error); ok {
+			if _, isDef := x.(errdef.Definition); !isDef {
+				if cs := ue.Unwrap(); len(cs) == 1 {
+					if pe, ok := cs[0].(errdef.PanicError); ok {
+						panic(pe)
+					}
+				}
+			}
+		}
+		panic(x)
 	case "panicVal":
 		panic(panicVals[c.Val])
 	case "panicRt":
@@ -311,6 +324,8 @@ func (w *world) coqCb(c *PCb, inner map[*PCb]error) string {
 		return "(CRet " + optIdx(c.E) + ")"
 	case "panicErr":
 		return "(CPanicErr " + cNat(*c.E) + ")"
+	case "panicInner":
+		return "(CPanicInner " + cNat(*c.E) + ")"
 	case "panicVal":
 		return fmt.Sprintf("(CPanicVal %s %s)", cN(c.Val+1), cStr(fmt.Sprintf("%v", panicVals[c.Val])))
 	case "panicRt":
@@ -580,6 +595,9 @@ func genOpts(r *Rng, cfg p1Cfg, pool []gval, max int) []POpt {
 			out = append(out, POpt{T: "field", Key: k, Val: Pick(r, vs)})
 		case x == 8 && cfg.Trace:
 			o := POpt{T: Pick(r, []string{"skip", "depth", "notrace", "depth"}), N: r.Intn(3)}
+			if o.T == "depth" && r.Chance(1, 4) {
+				o.N = -1 // a negative depth means the default depth
+			}
 			if o.T == "skip" && r.Chance(1, 3) {
 				o.N = 1000 // more than the call depth: a stack object with zero frames
 			}
@@ -709,7 +727,7 @@ func genProg(r *Rng, cfg p1Cfg) []PStmt {
 			if firstRec >= 0 && r.Chance(1, 3) {
 				// re-panic: the panic value is an earlier Recover's result or an error made after it
 				// (which may wrap it)
-				p = append(p, PStmt{T: "recover", F: r.Intn(ndefs), Cb: &PCb{T: "panicErr", E: ip(firstRec + r.Intn(nerrs-firstRec))}})
+				p = append(p, PStmt{T: "recover", F: r.Intn(ndefs), Cb: &PCb{T: Pick(r, []string{"panicErr", "panicErr", "panicInner"}), E: ip(firstRec + r.Intn(nerrs-firstRec))}})
 				nerrs++
 				break
 			}
